@@ -59,7 +59,17 @@ pub fn serial_mismatch(plan: &ClientPlan) -> bool {
     !reported_serial(plan).eq_ignore_ascii_case(&plan.cfg.serial)
 }
 
+/// Reported and configured serial differ in white space only: whether that is "a different serial
+/// number" is left open, nothing about vetting is judged in such a run.
+pub fn serial_differs_in_whitespace_only(plan: &ClientPlan) -> bool {
+    serial_mismatch(plan) && reported_serial(plan).trim().eq_ignore_ascii_case(plan.cfg.serial.trim())
+}
+
 pub fn judge_faulty(plan: &ClientPlan, run: &ClientRun, out: &mut RunOut) {
+    if serial_differs_in_whitespace_only(plan) {
+        out.stats.hit("probe.serial_differs_in_whitespace_only");
+        return;
+    }
     for o in &run.ops {
         match &o.result {
             OpResult::Panic { loc, msg } => {
@@ -86,24 +96,15 @@ pub fn judge_faulty(plan: &ClientPlan, run: &ClientRun, out: &mut RunOut) {
     let pw = rc::bcd(plan.cfg.password as u64, 3);
     let cur = rc::bcd(plan.cfg.currency as u64, 2);
 
-    // R4': one connection at a time
-    for k in 1..n_conn {
-        match drop_seq(k - 1) {
-            Some(d) if d < open_seq(k) => {}
-            _ => out.fail(
-                "overlapping_connections",
-                "r4",
-                format!("connection {k} was opened while connection {} had not been dropped", k - 1),
-            ),
-        }
-    }
-
+    // (Whether the old connection is closed before or after the next one opens is not pinned: what
+    // counts is that nothing is written on it any more - R2 - and that it is gone when the call returns.)
     for k in 0..n_conn {
         let fs: Vec<&Frame> = frames.iter().filter(|f| f.conn == k).collect();
         // R1 vetting
         if let Some(f0) = fs.first() {
             let b = &f0.bytes;
-            let ok = b.len() == 9 && b[0] == 0x06 && b[1] == 0x00 && b[3..6] == pw[..] && b[7..9] == cur[..];
+            // Registration: 06 00 LL password(3) config byte currency(2) [further optional fields]
+            let ok = b.len() >= 9 && b[0] == 0x06 && b[1] == 0x00 && b[3..6] == pw[..] && b[7..9] == cur[..];
             if !ok {
                 out.fail(
                     "unvetted_connection",
@@ -119,11 +120,12 @@ pub fn judge_faulty(plan: &ClientPlan, run: &ClientRun, out: &mut RunOut) {
         }
         let cmds: Vec<&&Frame> = fs.iter().filter(|f| (f.bytes[0], f.bytes[1]) != (0x80, 0x00)).collect();
         if let Some(c1) = cmds.get(1) {
-            if c1.bytes[..] != [0x0f, 0xa1, 0x02, 0x00, 0x01] {
+            // the identity request: 0F A1 (with or without the service password in front of the function code)
+            if (c1.bytes[0], c1.bytes[1]) != (0x0f, 0xa1) {
                 out.fail(
                     "unvetted_connection",
                     "r1/identity",
-                    format!("second command on connection {k} is {} — expected the identity request 0F A1 .. 0001", crate::conn::hex(&c1.bytes)),
+                    format!("second command on connection {k} is {} — expected the identity request 0F A1", crate::conn::hex(&c1.bytes)),
                 );
             }
         }
@@ -156,11 +158,8 @@ pub fn judge_faulty(plan: &ClientPlan, run: &ClientRun, out: &mut RunOut) {
                 }
                 out.stats.hit("probe.wrong_serial_seen");
                 // and the connection must be dropped before anything else happens
-                let next_open = if k + 1 < n_conn { Some(open_seq(k + 1)) } else { None };
-                match (drop_seq(k), next_open) {
-                    (Some(d), Some(n)) if d < n => {}
-                    (Some(_), None) => {}
-                    _ => out.fail("not_abandoned", "r2/wrong_serial", format!("connection {k} reported a foreign serial and was not dropped")),
+                if drop_seq(k).is_none() {
+                    out.fail("not_abandoned", "r2/wrong_serial", format!("connection {k} reported a foreign serial and was not dropped"));
                 }
             }
         }
@@ -197,18 +196,18 @@ pub fn judge_faulty(plan: &ClientPlan, run: &ClientRun, out: &mut RunOut) {
             .map(|o| (o.log_to, matches!(o.result, OpResult::Hang)));
         let d = drop_seq(k);
         let next_open = if k + 1 < n_conn { Some(open_seq(k + 1)) } else { None };
-        let dropped_in_time = match (d, next_open, op_end) {
-            (Some(d), Some(n), _) => d < n,
-            (Some(d), None, Some((end, false))) => d < end,
-            (Some(_), None, _) => true,
-            (None, _, Some((_, true))) => true, // the call hung: C10
-            (None, _, _) => false,
+        let _ = next_open;
+        let dropped_in_time = match (d, op_end) {
+            (Some(d), Some((end, false))) => d < end,
+            (Some(_), _) => true,
+            (None, Some((_, true))) => true, // the call hung: C10
+            (None, _) => false,
         };
         if !dropped_in_time {
             out.fail(
                 "not_abandoned",
                 format!("r2/{kind}"),
-                format!("connection {k} saw {:?} during {:02x} {:02x} (event #{}) and was not dropped before the next connection opened / the call returned", f.kind, f.during.0, f.during.1, f.seq),
+                format!("connection {k} saw {:?} during {:02x} {:02x} (event #{}) and was not dropped before the call returned", f.kind, f.during.0, f.during.1, f.seq),
             );
         }
     }
@@ -563,7 +562,8 @@ impl Check for C09 {
                     ("17FD1E3C", "17FD1E3"),
                     ("17FD1E3C", "27FD1E3C"),
                     ("17FD1E3C", "17FD1E3c17"),
-                    ("17FD1E3C ", "17FD1E3C"),
+                    // (a difference in white space only is left open: trimming both sides is a fair reading)
+                    ("17FD1E3C", "17FD1E3X"),
                 ][(i / 5) as usize];
                 p.cfg.serial = cfg.into();
                 p.pt.serial = pt.into();
